@@ -351,7 +351,59 @@ def env_spellings(a, math=False):
     ]
 
 
-def parse_with_spec(spec, s, env=False):
+def mode_spellings(a, mode):
+    """Arguments that switch to text / math mode: the pylatexenc-2 spelling (args_math_mode) against the
+    pylatexenc-3 one (LatexArgumentSpec with a parsing-state delta)."""
+    from pylatexenc import macrospec as ms
+    from pylatexenc.latexnodes import LatexArgumentSpec, ParsingStateDeltaEnterMathMode, ParsingStateDeltaLeaveMathMode
+    delta = ParsingStateDeltaEnterMathMode if mode else ParsingStateDeltaLeaveMathMode
+    return [
+        ('MacroSpec(n, [LatexArgumentSpec(x, parsing_state_delta=...)])',
+         lambda: ms.MacroSpec('n', arguments_spec_list=[LatexArgumentSpec(x, parsing_state_delta=delta()) for x in a])),
+        ('MacroSpec(n, args_parser=MacroStandardArgsParser(a, args_math_mode=[%r,..]))' % mode,
+         lambda: ms.MacroSpec('n', args_parser=ms.MacroStandardArgsParser(a, args_math_mode=[mode] * len(a)))),
+    ]
+
+
+def check_mode_spellings(a, inputs, acc):
+    for mode in (False, True):
+        sp = mode_spellings(a, mode)
+        for w in inputs:
+            for frame in ('$%s$', '%s'):
+                s = frame % ('\\n' + w)
+                ref = None
+                for (label, fac) in sp:
+                    acc.count('evaluations')
+                    o = outcome(lambda: parse_with_spec(fac(), s, False, pick=None))
+                    case = dict(argspec=a, s=s, spelling=label, env=False, mode=mode)
+                    if o[0] in ('exception', 'timeout'):
+                        acc.violation(ID, 'modespellings', case, dict(kind='spelling-crashes', spelling=label, exc=o[1]))
+                        continue
+                    if ref is None:
+                        ref = o
+                        continue
+                    if ref[0] == 'ok' and o[0] == 'ok' and _modes_only(o[1][0]) != _modes_only(ref[1][0]):
+                        acc.violation(ID, 'modespellings', case, dict(kind='argument-mode-differs-from-v3-declaration', mode=mode),
+                                      observed=repr(o[1][0])[:600], expected=repr(ref[1][0])[:600])
+
+
+def _modes_only(c):
+    """(kind, pos, in_math) triples of a canonical tree - the legacy parser builds some nodes differently, the
+    recorded math/text mode of what it does build must agree."""
+    out = []
+
+    def walk(x):
+        if isinstance(x, tuple):
+            if x and isinstance(x[0], str) and x[0] in ('chars', 'group', 'macro', 'math', 'comment', 'specials', 'environment'):
+                m = next((y for y in x if isinstance(y, tuple) and len(y) == 2 and isinstance(y[0], bool)), None)
+                out.append((x[0], x[1], x[2], None if m is None else m[0]))
+            for y in x:
+                walk(y)
+    walk(c)
+    return sorted(out)
+
+
+def parse_with_spec(spec, s, env=False, pick=0):
     from pylatexenc import macrospec as ms
     from pylatexenc.latexwalker import LatexWalker
     from pylatexenc.latexnodes.parsers import LatexGeneralNodesParser
@@ -362,6 +414,8 @@ def parse_with_spec(spec, s, env=False):
         db.add_context_category('c', macros=[spec])
     lw = LatexWalker(s, latex_context=db, tolerant_parsing=False)
     nodes, _ = lw.parse_content(LatexGeneralNodesParser())
+    if pick is None:
+        return (canon.canon_node(nodes, modes=True), None, None)
     n = nodes[0]
     nodeargd = n.nodeargd
     legacy = None
@@ -433,6 +487,8 @@ def run_shard(shard, tier, acc):
         check_spellings(a, inputs, acc, env=False)
         check_spellings(a, inputs[:400], acc, env=True)
         check_spellings(a, inputs[:60], acc, env=True, math=True)
+        if a and len(a) <= 2 and '*' not in a:
+            check_mode_spellings(a, [w for w in inputs[:400] if w.count('{') == w.count('}')], acc)
         acc.sample(dict(argspec=a, inputs=len(inputs)), force=(a == '*[{'))
 
 
@@ -443,6 +499,11 @@ def replay(sub, case):
         acc.violations = [v for v in acc.violations if v['case'].get('variant') == case['variant'] and v['case'].get('tolerant') == case['tolerant']]
     elif sub == 'structural':
         check_structural(case['s'], case['pos'], False, acc)
+    elif sub == 'modespellings':
+        s = case['s']
+        w = s.strip('$')[2:]
+        check_mode_spellings(case['argspec'], [w], acc)
+        acc.violations = [v for v in acc.violations if v['case'].get('s') == s and v['case'].get('mode') == case['mode']]
     else:
         s = case['s']
         w = s[len('\\begin{n}'):-len('\\end{n}')] if case['env'] else s[2:]
